@@ -87,8 +87,10 @@ class EAM_Potential_Builder(object):
     null_embed_species = density_species - defined
 
     # Create the zero functions for null_embed_species.
+    # Sorted: the order of embed_dict decides the order of the elements in the tabulation and
+    # set iteration order depends on the interpreter's hash seed.
     null = zero()
-    for s in null_embed_species:
+    for s in sorted(null_embed_species):
       embed_dict[s] = null
 
 
@@ -101,7 +103,7 @@ class EAM_Potential_Builder(object):
     all_species = embed_species | density_species
 
     null = zero()
-    for s in all_species:
+    for s in sorted(all_species):
       other_dict = density_dict.setdefault(s, null)
 
 
@@ -222,7 +224,7 @@ class EAM_Potential_Builder_FS(EAM_Potential_Builder):
     all_species = embed_species | density_species
 
     null = zero()
-    for s in all_species:
+    for s in sorted(all_species):
       other_dict = density_dict.setdefault(s, {})
-      for o in all_species:
+      for o in sorted(all_species):
         other_dict.setdefault(o, null)
